@@ -199,6 +199,40 @@ def run(ctx):
             ctx.check(first_ok, 'optima_tt:exact', 'rank-1 tensor, k=%d: the maximum-modulus extreme is wrong' % k_)
             ctx.check(second_ok, 'optima_tt:rank1-second-extreme', 'rank-1 tensor of shape %s, k=%d: (min, max) = (%r, %r), true (%r, %r)'
                       % ([G.shape[1] for G in Yr], k_, ymin, ymax, Fr.min(), Fr.max()))
+    # --- nothing pruned (k >= number of elements, well above any built-in default of k) on tensors with more than 100
+    #     partial multi-indices per step: both extremes must be the true ones; the opposite extreme is planted in
+    #     slices of small norm (a needle beside two heavy arms)
+    for t in range(6 if quick else 40):
+        n_ = [[12, 12, 12], [11, 14, 10], [6, 5, 6, 5], [16, 16, 16]][t % 4]
+        d_ = len(n_)
+        arms = [int(rng.integers(q_)) for q_ in n_]
+        # value 1 on two arms through the point `arms` (one varies the first mode, one the last mode), -0.5 at the crossing,
+        # 0 elsewhere; optional noise of rank 2 scaled to 1e-3
+        g_ = np.ones(n_[-1])
+        g_[arms[-1]] = -0.5
+        f_ = np.ones(n_[0])
+        f_[arms[0]] = 0.
+        unit = lambda m_, i_: np.eye(m_)[i_].reshape(1, m_, 1)
+        T1 = [unit(q_, arms[m_]) for m_, q_ in enumerate(n_[:-1])] + [g_.reshape(1, -1, 1)]
+        T2 = [f_.reshape(1, -1, 1)] + [unit(q_, arms[m_ + 1]) for m_, q_ in enumerate(n_[1:])]
+        Ya = F.tt_add(T1, T2)
+        if t % 3:
+            Rn = [rng.uniform(-1, 1, size=G.shape) for G in teneva.rand(n_, 2, seed=t)]
+            Rn[0] = Rn[0] * 1e-3
+            Ya = F.tt_add(Ya, Rn)
+        Fa = F.dense(Ya)
+        N_ = int(np.prod(n_))
+        kk = N_ if t % 2 else N_ + 37
+        ctx.case(key=('unpruned-large', n_, t, ctx.seed), nontrivial=True)
+        imin, ymin, imax, ymax = teneva.optima_tt(Ya, kk)
+        okm = abs(float(ymin) - Fa.min()) <= 1e-9 and abs(float(ymax) - Fa.max()) <= 1e-9
+        ctx.check(okm, 'optima_tt:exact', 'optima_tt(k=%d >= %d elements) on a tensor of shape %s: (min, max) = (%r, %r), true (%r, %r)' % (kk, N_, n_, ymin, ymax, Fa.min(), Fa.max()))
+        i1_, y1_ = teneva.optima_tt_max(Ya, kk)
+        ctx.check(abs(abs(float(y1_)) - np.abs(Fa).max()) <= 1e-9, 'optima_tt_max:exact', 'optima_tt_max(k=%d >= %d elements) misses the maximum modulus (shape %s)' % (kk, N_, n_))
+        if all(q_ == 16 for q_ in n_):
+            imin, ymin, imax, ymax = teneva.optima_qtt(Ya, kk, e=1e-14)
+            ctx.check(abs(float(ymin) - Fa.min()) <= 1e-8 and abs(float(ymax) - Fa.max()) <= 1e-8, 'optima_qtt:exact',
+                      'optima_qtt(k=%d >= %d elements): (min, max) = (%r, %r), true (%r, %r)' % (kk, N_, ymin, ymax, Fa.min(), Fa.max()))
     # --- rank-1 tensors with hundreds of modes: every entry is an ordinary number, the Frobenius norm is not
     for t in range(4 if quick else 24):
         d_ = [250, 200, 120, 300][t % 4]
